@@ -273,6 +273,8 @@ ANOM15 = {20: 'connection %d was handed out although its mutex is poisoned',
           22: 'has_broken / is_valid of connection %d was called on a thread that polls async code',
           23: 'get() failed', 24: 'an interaction ended differently than scripted', 25: 'timeout (%d)',
           26: 'a connection was established on a thread that polls async code (%d)',
+          28: 'is_mutex_poisoned() answers differently while the lock is held (without: %d)',
+          27: 'get() was served from connection %d while a cancelled closure was still running on it (its checks were skipped)',
           9: 'label %d does not fit'}
 
 
@@ -311,7 +313,7 @@ def monitor15(t, O, A):
     condemned = {}
     for i, (l, o, an) in enumerate(zip(t['labels'], O, A)):
         for a in an:
-            if a[0] in (20, 22, 23, 26):
+            if a[0] in (20, 22, 23, 26, 27, 28):
                 return i, (ANOM15[a[0]] % a[1]) if '%' in ANOM15[a[0]] else ANOM15[a[0]]
         if o[3] > maxs:
             return i, 'status.size %d exceeds max_size %d' % (o[3], maxs)
@@ -403,7 +405,7 @@ def analyze15(traces, mobs_all, summ, harness_errs, hist):
         # placement (C14): in the pools built on SyncWrapper, too, the backend's checks and the creation of
         # a connection never run on a thread that polls async code
         for i, an in enumerate(A):
-            bad = [a for a in an if a[0] in (22, 26)]
+            bad = [a for a in an if a[0] in (22, 26, 28)]
             if bad:
                 a = bad[0]
                 summ['C14']['monitor_fails'].append(dict(trace=ti, step=i, msg='%s pool: %s' % (
